@@ -86,9 +86,9 @@ func CheckTestOnly(
 				if v := findTypeLiteralViolation(&context, node); v != nil {
 					// Check if this violation should be ignored before marking type as reported
 					if !ignoreSet.Contains(v.Code, v.Pos) {
-						if !reportedTypes[v.TestOnlyObj] {
+						if !reportedTypes[v.TestOnlyObjPkg+"."+v.TestOnlyObj] {
 							violations = append(violations, *v)
-							reportedTypes[v.TestOnlyObj] = true
+							reportedTypes[v.TestOnlyObjPkg+"."+v.TestOnlyObj] = true
 						}
 					}
 				}
@@ -98,9 +98,9 @@ func CheckTestOnly(
 				if v := findTypeUsageViolation(&context, node.Type, node.Pos()); v != nil {
 					// Check if this violation should be ignored before marking type as reported
 					if !ignoreSet.Contains(v.Code, v.Pos) {
-						if !reportedTypes[v.TestOnlyObj] {
+						if !reportedTypes[v.TestOnlyObjPkg+"."+v.TestOnlyObj] {
 							violations = append(violations, *v)
-							reportedTypes[v.TestOnlyObj] = true
+							reportedTypes[v.TestOnlyObjPkg+"."+v.TestOnlyObj] = true
 						}
 					}
 				}
@@ -110,9 +110,9 @@ func CheckTestOnly(
 				if v := findTypeUsageViolation(&context, node.Type, node.Pos()); v != nil {
 					// Check if this violation should be ignored before marking type as reported
 					if !ignoreSet.Contains(v.Code, v.Pos) {
-						if !reportedTypes[v.TestOnlyObj] {
+						if !reportedTypes[v.TestOnlyObjPkg+"."+v.TestOnlyObj] {
 							violations = append(violations, *v)
-							reportedTypes[v.TestOnlyObj] = true
+							reportedTypes[v.TestOnlyObjPkg+"."+v.TestOnlyObj] = true
 						}
 					}
 				}
@@ -242,12 +242,13 @@ func findTypeLiteralViolation(
 
 	if ctx.testOnlyTypes.Contains(typeInfo.PkgPath, typeInfo.TypeName) {
 		return &TestOnlyViolation{
-			Pos:         node.Pos(),
-			TestOnlyObj: typeInfo.TypeName,
-			Kind:        annotations.TestOnlyOnType,
-			UsedInFile:  *ctx.fileName,
-			Reason:      fmt.Sprintf("type %s is marked @testonly and can only be used in test files", typeInfo.TypeName),
-			Code:        codes.TestOnlyTypeUsage,
+			Pos:            node.Pos(),
+			TestOnlyObj:    typeInfo.TypeName,
+			TestOnlyObjPkg: typeInfo.PkgPath,
+			Kind:           annotations.TestOnlyOnType,
+			UsedInFile:     *ctx.fileName,
+			Reason:         fmt.Sprintf("type %s is marked @testonly and can only be used in test files", typeInfo.TypeName),
+			Code:           codes.TestOnlyTypeUsage,
 		}
 	}
 	return nil
@@ -271,12 +272,13 @@ func findTypeUsageViolation(
 
 	if ctx.testOnlyTypes.Contains(typeInfo.PkgPath, typeInfo.TypeName) {
 		return &TestOnlyViolation{
-			Pos:         pos,
-			TestOnlyObj: typeInfo.TypeName,
-			Kind:        annotations.TestOnlyOnType,
-			UsedInFile:  *ctx.fileName,
-			Reason:      fmt.Sprintf("type %s is marked @testonly and can only be used in test files", typeInfo.TypeName),
-			Code:        codes.TestOnlyTypeUsage,
+			Pos:            pos,
+			TestOnlyObj:    typeInfo.TypeName,
+			TestOnlyObjPkg: typeInfo.PkgPath,
+			Kind:           annotations.TestOnlyOnType,
+			UsedInFile:     *ctx.fileName,
+			Reason:         fmt.Sprintf("type %s is marked @testonly and can only be used in test files", typeInfo.TypeName),
+			Code:           codes.TestOnlyTypeUsage,
 		}
 	}
 	return nil
